@@ -39,7 +39,7 @@ def main():
         r = sh(f"git -C /repo apply {patch}")
         env = dict(os.environ)
     else:
-        wt = Path(f"/tmp/mut/eval_{a.sid}")
+        wt = Path(f"/tmp/mut/eval_{a.sid}.{os.getpid()}")  # per process: two runs of the same id must not share a tree
         sh(f"git -C /repo worktree remove --force {wt}")
         r = sh(f"git -C /repo worktree add --detach {wt} HEAD && git -C {wt} apply {patch}")
         env = dict(os.environ, VERIF_REPO=str(wt), PYTHONPATH=str(wt))
